@@ -313,6 +313,9 @@ func verifyFuncBeh(prog *Program, key string, beh *Behavior) (res *FuncResult) {
 	for _, c := range fc.Requires {
 		ex.assume(ex.specBool(sc, c))
 	}
+	for _, ln := range fc.Uses {
+		ex.useLemma(ln)
+	}
 	ex.oldState = ex.st.clone()
 	ex.frameVars = sc.vars
 	checkEnsures := func(outs []Val, suffix string) {
@@ -372,7 +375,13 @@ func verifyFuncBeh(prog *Program, key string, beh *Behavior) (res *FuncResult) {
 			if j := strings.Index(lab, ":"); j == 1 {
 				kind, lab = lab[:1], lab[2:]
 			}
+			post.lenient, post.missing = true, false
 			g := ex.specBool(post, c)
+			post.lenient = false
+			if post.missing {
+				// the clause names a local that is not in scope at this exit: not applicable here
+				continue
+			}
 			ex.curPos = decl.Pos()
 			ex.assert(kind, "check["+lab+"]"+suffix, g)
 		}
@@ -599,8 +608,31 @@ func verifyLemma(prog *Program, name string) (res *FuncResult) {
 		ex.rawFact(ex.typeFact(t, c))
 		sc.vars[n] = Val{c, t}
 	}
-	g := ex.specBool(sc, pd.Body)
-	ex.assert("L", "lemma", g)
+	if pd.InductVar == "" {
+		g := ex.specBool(sc, pd.Body)
+		ex.assert("L", "lemma", g)
+	} else {
+		// induction downwards from the bound: (a) v >= upto ==> body(v); (b) v < upto && body(v+1) ==> body(v)
+		v, ok := sc.vars[pd.InductVar]
+		if !ok {
+			res.Errors = append(res.Errors, "lemma "+name+": unknown induction variable "+pd.InductVar)
+			return res
+		}
+		upto, _ := ex.specEval(sc, pd.InductUpto.Expr)
+		body := ex.specBool(sc, pd.Body)
+		next := sc.bind(pd.InductVar, Val{Add(v.T, I(1)), v.Typ})
+		ih := ex.specBool(next, pd.Body)
+		base := ex.st
+		baseSt := ex.branch(base, Ge(v.T, upto.T), func() { ex.assert("L", "lemma-base", body) })
+		_ = baseSt
+		ex.st = base
+		stepSt := ex.branch(base, Lt(v.T, upto.T), func() {
+			ex.assume(ih)
+			ex.assert("L", "lemma-step", body)
+		})
+		_ = stepSt
+		ex.st = base
+	}
 	res.Obls = ex.obls
 	for _, n := range ex.declOrder {
 		if d := ex.decls[n]; d != "" {
@@ -646,4 +678,38 @@ func (ex *Exec) checkWrite(key string, ref *T) {
 		conds = append(conds, Eq(ref, r))
 	}
 	ex.assert("O", "write["+strings.TrimPrefix(key, "$")+"]", Or(conds...))
+}
+
+// useLemma assumes a (separately proved) lemma as a universally quantified fact.
+func (ex *Exec) useLemma(name string) {
+	pd := ex.prog.contracts.Lemmas[name]
+	if pd == nil {
+		ex.errs = append(ex.errs, "use of unknown lemma "+name)
+		return
+	}
+	pk := ex.pkgTypes(pd.Pkg)
+	sc := &specCtx{ex: ex, st: ex.st, vars: map[string]Val{}, stateVars: map[string]stateVar{}, pkg: pk, where: pd.Line, depth: 30}
+	var bvs []string
+	for i, n := range pd.ParamName {
+		t := ex.lookupType(pk, pd.ParamType[i])
+		switch sortOf(t) {
+		case SSlice:
+			bvs = append(bvs, "q_"+n+":Slice")
+			sc.vars[n] = Val{Const("q_"+n, SSlice), t}
+		case SBool:
+			bvs = append(bvs, "q_"+n+":Bool")
+			sc.vars[n] = Val{Const("q_"+n, SBool), t}
+		default:
+			bvs = append(bvs, "q_"+n)
+			sc.vars[n] = Val{Const("q_"+n, SInt), t}
+		}
+	}
+	body := ex.specBool(sc, pd.Body)
+	var pats []*T
+	if pd.Trigger != nil {
+		tv, _ := ex.specEval(sc, pd.Trigger.Expr)
+		pats = append(pats, tv.T)
+	}
+	ex.rawFact(Forall(bvs, body, pats...))
+	ex.lemmasUsed[name] = true
 }
